@@ -8,6 +8,7 @@ CONSTANTS
   PlusLocksKids = FALSE
   Scenario = "half"
   MaxTries = 5
+  RecheckName = TRUE
   LowestFree = FALSE
   OneOp = {}
 INVARIANTS TypeOK Refines NoSelfWait NoDeadlock LocksReleased TakenReturned RetryBound
